@@ -47,8 +47,9 @@ def _run_chunk(args):
     return problems, dict(stats), samples
 
 
-def replay_dump(dumpfile, handler_path, opts=None, nproc=16, chunk=200):
-    texts = tlc.split_dump(dumpfile)
+def replay_dump(dumpfile, handler_path, opts=None, nproc=16, chunk=200, texts=None):
+    if texts is None:
+        texts = tlc.split_dump(dumpfile)
     chunks = [texts[i:i + chunk] for i in range(0, len(texts), chunk)]
     problems, stats, samples = [], collections.Counter(), []
     t0 = time.time()
